@@ -40,12 +40,12 @@ ASSUMPTIONS = ["migen tracer shim (names only)", "the bus master is a 32-bit Wis
 FLOORS = {"quick": {"registers_replayed": 600, "accessor_reads": 600, "accessor_writes": 300, "socs_built": 40, "mem_region_words_checked": 200,
                     "cross_format_entries_compared": 2000, "image_bytes_checked": 12000, "registers_wider_than_64_bits": 40, "interrupts_raised_and_located": 40,
                     "fields_located": 250, "field_accessor_writes_replayed": 120,
-                    "other_memories_checked_after_region_write": 400, "ram_image_words_read_back": 150, "oversize_images_offered": 15, "extra_ram_requests_inside_a_neighbours_window_refused": 6},
+                    "other_memories_checked_after_region_write": 400, "ram_image_words_read_back": 150, "oversize_images_offered": 15, "declared_constants_compared": 60, "extra_ram_requests_inside_a_neighbours_window_refused": 6},
           "thorough": {"registers_replayed": 9000, "accessor_reads": 9000, "accessor_writes": 4500, "socs_built": 600,
                        "mem_region_words_checked": 3000, "cross_format_entries_compared": 30000, "image_bytes_checked": 300000,
                        "registers_wider_than_64_bits": 600, "interrupts_raised_and_located": 500,
                        "fields_located": 4000, "field_accessor_writes_replayed": 2000,
-                       "other_memories_checked_after_region_write": 6000, "ram_image_words_read_back": 2500, "oversize_images_offered": 250, "extra_ram_requests_inside_a_neighbours_window_refused": 90}}
+                       "other_memories_checked_after_region_write": 6000, "ram_image_words_read_back": 2500, "oversize_images_offered": 250, "declared_constants_compared": 1000, "extra_ram_requests_inside_a_neighbours_window_refused": 90}}
 SHARD_TIMEOUT = {"quick": 1500, "thorough": 3400}
 N_SAMPLES = 2
 
